@@ -823,8 +823,11 @@ class Interp:
         if eT is not None and eT[0] != 'any':
             i = z3.Int('i!t')
             el = st.L_el[r][i]
-            st.fact(z3.ForAll([i], z3.Implies(z3.And(0 <= i, i < st.L_len[r]), self.conforms(el, eT)),
-                                patterns=[el]))
+            body = z3.Implies(z3.And(0 <= i, i < st.L_len[r]), self.conforms(el, eT))
+            try:
+                st.fact(z3.ForAll([i], body, patterns=[el]))
+            except z3.Z3Exception:      # the reference is an if-then-else term: not usable as a trigger
+                st.fact(z3.ForAll([i], body))
 
     def dict_facts(self, r, T):
         st = self.st
@@ -833,7 +836,10 @@ class Interp:
         if eT is not None and eT[0] != 'any':
             k = z3.String('k!t')
             v = st.D_val[r][k]
-            st.fact(z3.ForAll([k], z3.Implies(st.D_has[r][k], self.conforms(v, eT)), patterns=[v]))
+            try:
+                st.fact(z3.ForAll([k], z3.Implies(st.D_has[r][k], self.conforms(v, eT)), patterns=[v]))
+            except z3.Z3Exception:
+                st.fact(z3.ForAll([k], z3.Implies(st.D_has[r][k], self.conforms(v, eT))))
 
     def dict_wf(self, r):
         """Well-formedness of any dict (true of every real dict; the abstract operations keep
@@ -2032,7 +2038,10 @@ class Interp:
             body = self.equal(x, el)
         finally:
             self.kdepth -= 1
-        return z3.Exists([j], z3.And(0 <= j, j < seg[4], body), patterns=[seg[3][j]])
+        try:
+            return z3.Exists([j], z3.And(0 <= j, j < seg[4], body), patterns=[seg[3][j]])
+        except z3.Z3Exception:      # the list reference is an if-then-else term: not usable as a trigger
+            return z3.Exists([j], z3.And(0 <= j, j < seg[4], body))
 
     def list_get_q(self, r, j, T) -> SV:
         """Element read under a quantifier: typing comes from list_facts, no path assumptions."""
